@@ -49,7 +49,8 @@ def coarsen_sym(p):
     rows, newid = _coarse_geometry(bins, k)
     cover("factor_exceeds_chromosome", any(nb < k for nb in layout))
     cover("chunk_smaller_than_row", or_(*[ssum([ite(x == r, 1, 0) for x in b1]) > cs for r in range(n)]) if K else False)
-    sc.coarsen_cooler(src, out, k, cs, nproc=nproc, columns=["count", "w"], agg={"w": p["agg"]} if p["agg"] != "sum" else None)
+    sc.coarsen_cooler(src, out, k, cs, nproc=nproc, columns=["count", "w"], agg={"w": p["agg"]} if p["agg"] != "sum" else None,
+                      **({"dtypes": {"w": np.dtype("int64")}} if p.get("partial_dtypes") else {}))
     for cond, msg in validity_sym(out):
         prove(cond, "coarsened output: " + msg)
     g = symh5.File(out, "r")
@@ -93,7 +94,8 @@ def coarsen_real(p, inputs):
     src = build_cooler_real(scratch_file("c08_in.cool"), bins, b1, b2, {"count": v, "w": w}, upper, dtypes={"w": "int64", "count": cdt})
     k, cs = inputs["factor"], inputs["chunksize"]
     out = scratch_file("c08_out.cool")
-    cooler.coarsen_cooler(src, out, k, cs, nproc=nproc, columns=["count", "w"], agg={"w": p["agg"]} if p["agg"] != "sum" else None)
+    cooler.coarsen_cooler(src, out, k, cs, nproc=nproc, columns=["count", "w"], agg={"w": p["agg"]} if p["agg"] != "sum" else None,
+                          **({"dtypes": {"w": np.dtype("int64")}} if p.get("partial_dtypes") else {}))
     validity_real(out)
     rows, newid = _coarse_geometry(bins, k)
     names = [f"c{i}" for i in range(len(layout))]
@@ -123,7 +125,7 @@ def _cases(tier):
                  ((4,), "even", 3, 2, 2)]   # three pixels, two workers: batches of spans of unequal size
     else:
         specs = [((3,), "fixed", 2, 1, 4), ((2, 1), "variable", 2, 1, 3), ((1, 3), "fixed", 3, 2, 3), ((4,), "even", 3, 1, 4), ((2, 3), "variable", 3, 3, 3),
-                 ((5,), "fixed", 3, 1, 4), ((1, 1, 2), "fixed", 3, 2, 2), ((3, 3), "even", 4, 1, 3)]
+                 ((5,), "fixed", 3, 1, 4), ((1, 1, 2), "fixed", 3, 2, 2), ((3, 3), "even", 3, 1, 3)]
     for layout, kind, K, nproc, kmax in specs:
         for upper in (True, False):
             for agg in ("sum", "max"):
@@ -135,6 +137,8 @@ def _cases(tier):
                 out.append(c)
     # a float64 count column with fractional values, coarsened without an explicit dtype
     out.append(dict(layout=[3], kind="fixed", K=2, upper=True, nproc=1, kmax=2, agg="sum", float_counts=True))
+    # ... and with a dtypes dict that names only some of the columns: the others keep the source's types
+    out.append(dict(layout=[3], kind="fixed", K=2, upper=True, nproc=1, kmax=2, agg="sum", float_counts=True, partial_dtypes=True))
     return out
 
 
